@@ -2,6 +2,8 @@
 # usage: selftest/mut.sh <property> <file relative to repo> <python-regex> <replacement> [count]
 # copies /repo to a scratch dir outside /repo and /verif, applies one edit, runs the check there, removes the copy.
 set -u
+export VERIF_EVIDENCE_DIR=$(mktemp -d /tmp/stbem_evid.XXXXXX)
+trap 'rm -rf "$VERIF_EVIDENCE_DIR"' EXIT
 P=$1; F=$2; PAT=$3; REP=$4; CNT=${5:-1}
 S=$(mktemp -d /tmp/stbem_mut.XXXXXX)
 rsync -a --exclude .git /repo/ "$S/"
